@@ -46,13 +46,14 @@ def _pos(focus, n):
     return f
 
 
-def h_auto(d, shape, focus, n, npos, lit=None, pre=0, post=0):
+def h_auto(d, shape, focus, n, npos, lit=None, pre=0, post=0, conj_cats=False):
     from depccg.printer.auto import auto_of
     from depccg.printer.conll import conll_of
     from depccg.tools import reader
     from depccg.utils import denormalize
     env.install_open(reader)
-    tb = TreeBuilder(d, 'en', word=_word(focus, n, lit, pre, post), attrs=dict(pos=_pos(focus, npos)) if npos else {}, heads='sym')
+    cats = dict(leaf=['NP[conj]', 'S[dcl]/NP[conj]', 'N[conj]', 'NP'], node=['NP[conj]', 'S[dcl]', '(S\\NP)\\NP[conj]']) if conj_cats else None
+    tb = TreeBuilder(d, 'en', word=_word(focus, n, lit, pre, post), attrs=dict(pos=_pos(focus, npos)) if npos else {}, heads='sym', cats=cats)
     t = tb.build(shape)
     line = auto_of(t)
     f = env.write_file('c08.auto', ['ID=1, log probability=-1.00000000', line])
@@ -97,6 +98,8 @@ def obligations(tier):
                 yield Obligation('C08.auto[%s,leaf=%d,word=%d,pos=%d]' % (shape_name(s), i, n, npos), 'h_auto', dict(shape=s, focus=[i], n=n, npos=npos), cost=n * 3 + npos)
         if not q and nl >= 2:
             yield Obligation('C08.auto[%s,leaves=0+1,word=2]' % shape_name(s), 'h_auto', dict(shape=s, focus=[0, 1], n=2, npos=0), cost=12)
+    for s in [SHAPES[1][0], SHAPES[2][0], SHAPES[2][1], SHAPES[3][0]]:
+        yield Obligation('C08.auto[%s,categories ending in [conj],word=1]' % shape_name(s), 'h_auto', dict(shape=s, focus=[0], n=1, npos=0, conj_cats=True), cost=3)
     lits = literals()
     for lit in lits:
         for pre, post in ((0, 0), (1, 0), (0, 1)) + (() if q else ((1, 1),)):
